@@ -22,7 +22,7 @@ Arguments count_n : simpl never.
 Record tord (s : tstate) : Prop := mkTord {
   to_seq : forall c, filter (is_c c) (t_alog s) = filter (is_c c) (ritems (t_rlog s)) ++ filter (is_c c) (iitems (t_infl s));
   to_k1 : forall c, outst c s <= 1;
-  to_k2 : forall c, 1 <= outst c s -> exists n issued, nth_error (t_thr s) c = Some (TCons n issued CWait);
+  to_k2 : forall c, 1 <= outst c s -> exists n issued pc, nth_error (t_thr s) c = Some (TCons n issued pc) /\ pc <> CIdle;
   to_k3 : forall c n issued pc, nth_error (t_thr s) c = Some (TCons n issued pc) -> nres c s + outst c s = issued
 }.
 
@@ -32,14 +32,14 @@ Lemma tord_generic s s' i t t' :
   (forall c, filter (is_c c) (t_alog s') = filter (is_c c) (ritems (t_rlog s')) ++ filter (is_c c) (iitems (t_infl s'))) ->
   (forall c, outst c s' <= 1) ->
   (forall c, c <> i -> nres c s' + outst c s' = nres c s + outst c s /\ outst c s' <= outst c s) ->
-  (1 <= outst i s' -> exists n issued, t' = TCons n issued CWait) ->
+  (1 <= outst i s' -> exists n issued pc, t' = TCons n issued pc /\ pc <> CIdle) ->
   (forall n issued pc, t' = TCons n issued pc -> nres i s' + outst i s' = issued) ->
   tord s'.
 Proof.
   intros [J K1 K2 K3] T E J' K1' OTH KI2 KI3. split; [exact J'|exact K1'| |].
   - intros c H. destruct (Nat.eq_dec c i) as [->|NE].
-    + destruct (KI2 H) as (n & issued & ->). exists n, issued. rewrite E. apply (nth_error_set_same _ _ _ _ T).
-    + destruct (OTH c NE) as [_ LE]. destruct (K2 c ltac:(lia)) as (n & issued & X). exists n, issued.
+    + destruct (KI2 H) as (n & issued & pc & -> & NP). exists n, issued, pc. split; [|exact NP]. rewrite E. apply (nth_error_set_same _ _ _ _ T).
+    + destruct (OTH c NE) as [_ LE]. destruct (K2 c ltac:(lia)) as (n & issued & pc & X & NP). exists n, issued, pc. split; [|exact NP].
       rewrite E. rewrite nth_error_set_nth_other by congruence. exact X.
   - intros c n issued pc H. rewrite E in H. destruct (Nat.eq_dec c i) as [->|NE].
     + rewrite (nth_error_set_same _ _ _ _ T) in H. injection H as H. apply (KI3 n issued pc). exact H.
@@ -63,9 +63,9 @@ Proof.
 Qed.
 
 Lemma filter_o_items_same c o : filter (is_c c) (o_items c o) = o_items c o.
-Proof. destruct o; cbn [o_items filter]; [|reflexivity]. unfold is_c. cbn [fst]. rewrite Nat.eqb_refl. reflexivity. Qed.
+Proof. destruct o; cbn [o_items filter]; try reflexivity. unfold is_c. cbn [fst]. rewrite Nat.eqb_refl. reflexivity. Qed.
 Lemma filter_o_items_other c c' o : c' <> c -> filter (is_c c) (o_items c' o) = [].
-Proof. intros H. destruct o; cbn [o_items filter]; [|reflexivity]. unfold is_c. cbn [fst]. apply Nat.eqb_neq in H. rewrite H. reflexivity. Qed.
+Proof. intros H. destruct o; cbn [o_items filter]; try reflexivity. unfold is_c. cbn [fst]. apply Nat.eqb_neq in H. rewrite H. reflexivity. Qed.
 
 Lemma iitems_remove_seq i l c o x : afind i l = Some (c, o) -> count_n c (cons_of l) <= 1 ->
   filter (is_c x) (iitems l) = filter (is_c x) (o_items c o) ++ filter (is_c x) (iitems (aremove i l)).
@@ -98,59 +98,86 @@ Proof. rewrite iitems_app. cbn [iitems flat_map fst snd]. rewrite app_nil_r. ref
 Lemma cons_of_snoc l i c o : cons_of (l ++ [(i, (c, o))]) = cons_of l ++ [c].
 Proof. unfold cons_of. rewrite map_app. reflexivity. Qed.
 
-Ltac tf := cbn [t_items t_waiters t_blocked t_limit t_infl t_cinfl t_rlog t_pdone t_alog t_plog t_thr fst snd] in *.
+Ltac tf := cbn [t_items t_waiters t_blocked t_limit t_dead t_infl t_cinfl t_rlog t_pdone t_alog t_plog t_wlog t_dlog t_thr fst snd] in *.
 Ltac cnt := unfold outst, nres in *; tf;
   repeat match goal with H : t_waiters ?s = _ |- context [t_waiters ?s] => rewrite H end;
   repeat match goal with H : t_waiters ?s = _, H2 : context [t_waiters ?s] |- _ => lazymatch H2 with H => fail | _ => rewrite H in H2 end end;
   rewrite ?cons_of_snoc, ?map_app in *; cbn [map fst snd] in *; rewrite ?count_n_app, ?count_n_cons, ?count_n_nil in *.
 
 Lemma not_cons_outst s i t : tord s -> nth_error (t_thr s) i = Some t ->
-  (forall n issued, t <> TCons n issued CWait) -> outst i s = 0.
+  (forall n issued pc, t = TCons n issued pc -> pc = CIdle) -> outst i s = 0.
 Proof.
   intros [_ K1 K2 _] T H. destruct (outst i s) eqn:E; [reflexivity|]. exfalso.
-  destruct (K2 i ltac:(lia)) as (n' & issued & X). rewrite T in X. injection X as X. exact (H _ _ X).
+  destruct (K2 i ltac:(lia)) as (n' & issued & pc & X & NP). rewrite T in X. injection X as X. exact (NP (H _ _ _ X)).
 Qed.
 
-Lemma eqb_sym_if (a b : nat) : (if Nat.eqb a b then 1 else 0) = (if Nat.eqb b a then 1 else 0).
-Proof. rewrite Nat.eqb_sym. reflexivity. Qed.
-
-Lemma tord_step s i : tord s -> t_enabled s i = true -> tord (fst (tstep s i)).
+(* steps that touch neither the waiters, the in-flight pop promises nor the resolution log *)
+Lemma tord_quiet s s' i t t' : tord s -> nth_error (t_thr s) i = Some t -> t_thr s' = set_nth (t_thr s) i t' ->
+  t_waiters s' = t_waiters s -> t_infl s' = t_infl s -> t_rlog s' = t_rlog s -> t_alog s' = t_alog s ->
+  (forall n issued pc, t' = TCons n issued pc -> exists pc0, t = TCons n issued pc0) ->
+  (outst i s = 0 \/ exists n issued pc, t' = TCons n issued pc /\ pc <> CIdle) ->
+  tord s'.
 Proof.
-  intros O EN. pose proof O as [J K1 K2 K3]. unfold tstep. unfold t_enabled in EN.
-  destruct (nth_error (t_thr s) i) as [[vals k [| |b] nb rets | n issued [| |] | n e [|] rets]|] eqn:T; [..|exact O].
-  - (* producer, critical section *)
-    assert (outst i s = 0) as OI by (apply (not_cons_outst s i _ O T); discriminate).
-    destruct (t_waiters s) as [|c w] eqn:W; [destruct (full s)|]; cbn [fst];
-      (eapply (tord_generic s _ i _ _ O T); [reflexivity|..]); tf; try discriminate.
-    all: try (intros c0; specialize (K1 c0); cnt; lia).
-    all: try (intros c0 NE; cnt; lia).
-    all: try (intros H; exfalso; cnt; lia).
-    all: try exact J.
-    intros c0. rewrite iitems_snoc. cbn [o_items]. rewrite !filter_snoc_c. rewrite J. rewrite app_assoc. reflexivity.
-  - (* producer / unblocker resolution *)
-    assert (outst i s = 0) as OI by (apply (not_cons_outst s i _ O T); discriminate).
-    destruct (afind i (t_infl s)) as [[c o]|] eqn:AF; cbn [fst];
-      (eapply (tord_generic s _ i _ _ O T); [reflexivity|..]); tf; try discriminate.
-    all: try (intros c0; specialize (K1 c0); cnt; lia).
-    all: try (intros c0 NE; cnt; lia).
-    all: try (intros H; exfalso; cnt; lia).
-    all: try exact J.
-    all: pose proof (fun x => cons_of_remove i (t_infl s) c o x AF) as CR.
+  intros O T E EW EI ER EA HC HI. pose proof O as [J K1 K2 K3].
+  assert (forall c, outst c s' = outst c s) as EO by (intros c; unfold outst; rewrite EW, EI; reflexivity).
+  assert (forall c, nres c s' = nres c s) as EN by (intros c; unfold nres; rewrite ER; reflexivity).
+  apply (tord_generic s s' i t t' O T E).
+  - intros c. rewrite EA, ER, EI. apply J.
+  - intros c. rewrite EO. apply K1.
+  - intros c NE. rewrite EO, EN. split; lia.
+  - rewrite EO. intros H. destruct HI as [Z|X]; [lia|exact X].
+  - intros n issued pc Ht. rewrite EO, EN. destruct (HC _ _ _ Ht) as (pc0 & ->). apply (K3 i n issued pc0 T).
+Qed.
+
+Lemma ritems_cancel_o (w : list nat) : ritems (map (fun c => (c, OCancel)) w) = [].
+Proof. induction w as [|c w IH]; [reflexivity|]. cbn [map ritems flat_map fst snd o_items app]. exact IH. Qed.
+Lemma count_cancel c (w : list nat) : count_n c (map fst (map (fun c => (c, OCancel)) w)) = count_n c w.
+Proof. rewrite map_map. cbn [fst]. rewrite map_id. reflexivity. Qed.
+
+(* the resolution of the pop promise taken by thread i, if any *)
+Lemma tord_resolve_pop s i t t' : tord s -> nth_error (t_thr s) i = Some t -> (forall n issued pc, t <> TCons n issued pc) ->
+  (forall n issued pc, t' <> TCons n issued pc) ->
+  tord (with_thr (resolve_pop s i) (set_nth (t_thr (resolve_pop s i)) i t')).
+Proof.
+  intros O T NC NC'. pose proof O as [J K1 K2 K3].
+  assert (outst i s = 0) as OI by (apply (not_cons_outst s i _ O T); intros n0 is0 pc0 X; exfalso; exact (NC _ _ _ X)).
+  unfold resolve_pop, with_thr. destruct (afind i (t_infl s)) as [[c o]|] eqn:AF; tf.
+  - pose proof (fun x => cons_of_remove i (t_infl s) c o x AF) as CR.
+    eapply (tord_generic s _ i _ _ O T); [reflexivity|..]; tf.
     + intros c0. rewrite ritems_snoc, filter_app. rewrite J.
       rewrite (iitems_remove_seq i _ c o c0 AF) by (specialize (K1 c); unfold outst in K1; lia).
       rewrite <- app_assoc. reflexivity.
     + intros c0. specialize (K1 c0). specialize (CR c0). cnt. lia.
     + intros c0 NE. specialize (CR c0). cnt. destruct (Nat.eqb c0 c); lia.
     + intros H; exfalso; specialize (CR i); cnt; lia.
+    + intros n issued pc H. exfalso. exact (NC' _ _ _ H).
+  - eapply (tord_quiet s _ i t t' O T); try reflexivity.
+    + intros n issued pc H. exfalso. exact (NC' _ _ _ H).
+    + left. exact OI.
+Qed.
+
+Lemma tord_step s i : tord s -> t_enabled s i = true -> tord (fst (tstep s i)).
+Proof.
+  intros O EN. pose proof O as [J K1 K2 K3]. unfold tstep. unfold t_enabled, t_enabled0 in EN.
+  destruct (nth_error (t_thr s) i) as [[vals k [|rb|b] nb rets | n issued [| |] | n e [|] rets | n e [|] rets | n [|] rets | d]|] eqn:T;
+    [..|exact O].
+  - (* producer, critical section *)
+    assert (outst i s = 0) as OI by (apply (not_cons_outst s i _ O T); discriminate).
+    destruct (t_waiters s) as [|c w] eqn:W; [destruct (full s)|]; cbn [fst].
+    + eapply (tord_quiet s _ i _ _ O T); try reflexivity; tf; [symmetry; exact W|discriminate|left; exact OI].
+    + eapply (tord_quiet s _ i _ _ O T); try reflexivity; tf; [symmetry; exact W|discriminate|left; exact OI].
+    + (eapply (tord_generic s _ i _ _ O T); [reflexivity|..]); tf; try discriminate.
+      * intros c0. rewrite iitems_snoc. cbn [o_items]. rewrite !filter_snoc_c. rewrite J. rewrite app_assoc. reflexivity.
+      * intros c0; specialize (K1 c0); cnt; lia.
+      * intros c0 NE; cnt; lia.
+      * intros H; exfalso; cnt; lia.
+  - (* producer, after the unlock *)
+    cbn [fst]. destruct rb; apply (tord_resolve_pop s i _ _ O T); discriminate.
   - (* producer, wake *)
     assert (outst i s = 0) as OI by (apply (not_cons_outst s i _ O T); discriminate).
-    cbn [fst]; (eapply (tord_generic s _ i _ _ O T); [reflexivity|..]); tf; try discriminate.
-    all: try (intros c0; specialize (K1 c0); cnt; lia).
-    all: try (intros c0 NE; cnt; lia).
-    all: try (intros H; exfalso; cnt; lia).
-    all: try exact J.
+    cbn [fst]. eapply (tord_quiet s _ i _ _ O T); try reflexivity; [discriminate|left; exact OI].
   - (* consumer, critical section *)
-    assert (outst i s = 0) as OI by (apply (not_cons_outst s i _ O T); discriminate).
+    assert (outst i s = 0) as OI by (apply (not_cons_outst s i _ O T); intros ? ? ? X; congruence).
     pose proof (K3 i n issued CIdle T) as K3i.
     destruct (t_items s) as [|it t] eqn:I; [|destruct (t_blocked s) as [|[y p] b] eqn:B]; cbn [fst];
       (eapply (tord_generic s _ i _ _ O T); [reflexivity|..]); tf.
@@ -158,56 +185,55 @@ Proof.
     all: try (intros c0 NE; cnt; try (assert (Nat.eqb c0 i = false) as -> by (apply Nat.eqb_neq; exact NE)); lia).
     all: try (intros H; exfalso; cnt; lia).
     all: try exact J.
-    all: try (intros H; eexists; eexists; reflexivity).
     all: try (intros ?n ?iss ?pc ?H; match goal with H : TCons _ _ _ = TCons _ _ _ |- _ => injection H as <- <- <- end; cnt; rewrite ?Nat.eqb_refl; lia).
     + intros c0. destruct (Nat.eq_dec c0 i) as [->|NE]; [cnt; rewrite ?Nat.eqb_refl; lia|].
       specialize (K1 c0); cnt; assert (Nat.eqb c0 i = false) as -> by (apply Nat.eqb_neq; exact NE); lia.
+    + intros _. do 3 eexists. split; [reflexivity|discriminate].
     + intros c0. rewrite ritems_snoc. cbn [o_items]. rewrite !filter_snoc_c. rewrite J. assert (is_c c0 (i, it) = Nat.eqb i c0) as EI by reflexivity. rewrite EI.
       destruct (Nat.eqb i c0) eqn:E; [|rewrite !app_nil_r; reflexivity].
       apply Nat.eqb_eq in E; subst c0. rewrite (iitems_none i) by (unfold outst in OI; lia). rewrite !app_nil_r. reflexivity.
     + intros c0. rewrite ritems_snoc. cbn [o_items]. rewrite !filter_snoc_c. rewrite J. assert (is_c c0 (i, it) = Nat.eqb i c0) as EI by reflexivity. rewrite EI.
       destruct (Nat.eqb i c0) eqn:E; [|rewrite !app_nil_r; reflexivity].
       apply Nat.eqb_eq in E; subst c0. rewrite (iitems_none i) by (unfold outst in OI; lia). rewrite !app_nil_r. reflexivity.
-  - (* consumer, resolution of a blocked push: only cinfl / pdone move *)
-    pose proof (K3 i n issued CRes T) as K3i.
-    destruct (afind i (t_cinfl s)); cbn [fst]; (eapply (tord_generic s _ i _ _ O T); [reflexivity|..]); tf.
-    all: try (intros c0; specialize (K1 c0); cnt; lia).
-    all: try (intros c0 NE; cnt; lia).
-    all: try exact J.
-    all: try (intros H; eexists; eexists; reflexivity).
-    all: try (intros ?n ?iss ?pc ?H; match goal with H : TCons _ _ _ = TCons _ _ _ |- _ => injection H as <- <- <- end; cnt; lia).
+  - (* consumer, after the unlock: only cinfl / pdone move *)
+    cbn [fst]. unfold resolve_push, with_thr. destruct (afind i (t_cinfl s)) as [[p code]|]; tf;
+      (eapply (tord_quiet s _ i _ _ O T); try reflexivity; [intros ? ? ? X; injection X as <- <- <-; eexists; reflexivity|]);
+      right; do 3 eexists; (split; [reflexivity|discriminate]).
   - (* consumer, wake: enabled means its pop future is resolved, so nothing is outstanding *)
     pose proof (K3 i n issued CWait T) as K3i. apply Nat.eqb_eq in EN. fold (nres i s) in EN.
-    cbn [fst]; (eapply (tord_generic s _ i _ _ O T); [reflexivity|..]); tf.
-    all: try (intros c0; specialize (K1 c0); cnt; lia).
-    all: try (intros c0 NE; cnt; lia).
-    all: try exact J.
-    all: try (intros H; exfalso; cnt; lia).
-    all: try (intros ?n ?iss ?pc ?H; match goal with H : TCons _ _ _ = TCons _ _ _ |- _ => injection H as <- <- <- end; cnt; lia).
+    cbn [fst]. eapply (tord_quiet s _ i _ _ O T); try reflexivity; [intros ? ? ? X; injection X as <- <- <-; eexists; reflexivity|].
+    left. lia.
   - (* unblock_pop, critical section *)
     assert (outst i s = 0) as OI by (apply (not_cons_outst s i _ O T); discriminate).
-    destruct (t_waiters s) as [|c w] eqn:W; cbn [fst];
-      (eapply (tord_generic s _ i _ _ O T); [reflexivity|..]); tf; try discriminate.
-    all: try (intros c0; specialize (K1 c0); cnt; lia).
-    all: try (intros c0 NE; cnt; lia).
-    all: try (intros H; exfalso; cnt; lia).
-    all: try exact J.
-    intros c0. rewrite iitems_snoc. cbn [o_items]. rewrite app_nil_r. apply J.
-  - (* unblock_pop, resolution *)
+    destruct (t_waiters s) as [|c w] eqn:W; cbn [fst].
+    + eapply (tord_quiet s _ i _ _ O T); try reflexivity; tf; [symmetry; exact W|discriminate|left; exact OI].
+    + (eapply (tord_generic s _ i _ _ O T); [reflexivity|..]); tf; try discriminate.
+      * intros c0. rewrite iitems_snoc. cbn [o_items]. rewrite app_nil_r. apply J.
+      * intros c0; specialize (K1 c0); cnt; lia.
+      * intros c0 NE; cnt; lia.
+      * intros H; exfalso; cnt; lia.
+  - (* unblock_pop, after the unlock *)
+    cbn [fst]. apply (tord_resolve_pop s i _ _ O T); discriminate.
+  - (* unblock_push, critical section *)
     assert (outst i s = 0) as OI by (apply (not_cons_outst s i _ O T); discriminate).
-    destruct (afind i (t_infl s)) as [[c o]|] eqn:AF; cbn [fst];
-      (eapply (tord_generic s _ i _ _ O T); [reflexivity|..]); tf; try discriminate.
-    all: try (intros c0; specialize (K1 c0); cnt; lia).
-    all: try (intros c0 NE; cnt; lia).
-    all: try (intros H; exfalso; cnt; lia).
-    all: try exact J.
-    all: pose proof (fun x => cons_of_remove i (t_infl s) c o x AF) as CR.
-    + intros c0. rewrite ritems_snoc, filter_app. rewrite J.
-      rewrite (iitems_remove_seq i _ c o c0 AF) by (specialize (K1 c); unfold outst in K1; lia).
-      rewrite <- app_assoc. reflexivity.
-    + intros c0. specialize (K1 c0). specialize (CR c0). cnt. lia.
-    + intros c0 NE. specialize (CR c0). cnt. destruct (Nat.eqb c0 c); lia.
-    + intros H; exfalso; specialize (CR i); cnt; lia.
+    destruct (t_blocked s) as [|[y p] b] eqn:B; cbn [fst];
+      (eapply (tord_quiet s _ i _ _ O T); try reflexivity; [discriminate|left; exact OI]).
+  - (* unblock_push, after the unlock *)
+    assert (outst i s = 0) as OI by (apply (not_cons_outst s i _ O T); discriminate).
+    cbn [fst]. unfold resolve_push, with_thr. destruct (afind i (t_cinfl s)) as [[p code]|]; tf;
+      (eapply (tord_quiet s _ i _ _ O T); try reflexivity; [discriminate|left; exact OI]).
+  - (* size *)
+    assert (outst i s = 0) as OI by (apply (not_cons_outst s i _ O T); discriminate).
+    cbn [fst]. eapply (tord_quiet s _ i _ _ O T); try reflexivity; [discriminate|left; exact OI].
+  - assert (outst i s = 0) as OI by (apply (not_cons_outst s i _ O T); discriminate).
+    cbn [fst]. eapply (tord_quiet s _ i _ _ O T); try reflexivity; [discriminate|left; exact OI].
+  - (* destroy: every waiting pop is canceled *)
+    assert (outst i s = 0) as OI by (apply (not_cons_outst s i _ O T); discriminate).
+    cbn [fst]. (eapply (tord_generic s _ i _ _ O T); [reflexivity|..]); tf; try discriminate.
+    + intros c0. rewrite ritems_app, ritems_cancel_o, app_nil_r. apply J.
+    + intros c0. specialize (K1 c0). cnt. lia.
+    + intros c0 NE. unfold nres, outst. tf. rewrite map_app, count_n_app, count_cancel. cnt. lia.
+    + intros H. exfalso. cnt. lia.
 Qed.
 
 (* ---------- only enabled threads step ---------- *)
@@ -255,11 +281,6 @@ Proof.
   revert a; induction n as [|n IH]; intros a; cbn [seq]; constructor; [apply IH|].
   apply Forall_forall. intros x H. apply in_seq in H. lia.
 Qed.
-Lemma SS_app_l {A} (R : A -> A -> Prop) a b : StronglySorted R (a ++ b) -> StronglySorted R a.
-Proof.
-  induction a as [|x a IH]; intros H; [constructor|]. cbn [app] in H. inversion H as [|? ? S F]; subst.
-  constructor; [apply IH; exact S|]. apply Forall_app in F. apply F.
-Qed.
 Lemma SS_map_filter {A} (F : A -> nat) (h : A -> bool) l :
   StronglySorted lt (map F l) -> StronglySorted lt (map F (filter h l)).
 Proof.
@@ -289,23 +310,23 @@ Theorem tq_per_producer_order limit thrs s c p :
   limit_ok limit -> Forall t_fresh thrs -> t_reachable limit thrs s ->
   StronglySorted lt (map it_k (filter (of_p p) (got c s))).
 Proof.
-  intros L F R. destruct (tcons_reachable _ _ _ L F R) as [_ _ _ J1 _ J5]. destruct (tord_reachable _ _ _ F R) as [J _ _ _].
-  assert (StronglySorted lt (map it_k (filter (of_p p) (t_plog s)))) as S1.
-  { rewrite J5. destruct (nth_error (t_thr s) p) as [[]|]; cbn [expected_plog map]; try constructor.
-    rewrite p_items_keys. apply SS_seq. }
-  rewrite J1 in S1. rewrite filter_app, map_app in S1. apply SS_app_l in S1.
+  intros L F R. destruct (tcons_reachable _ _ _ L F R) as [_ _ _ _ _ _ J6]. destruct (tord_reachable _ _ _ F R) as [J _ _ _].
+  destruct (J6 p) as [S1 _]. unfold t_chain in S1.
+  rewrite filter_app, map_app in S1. apply SS_app_l in S1.
   rewrite filter_map_snd, map_map in S1.
   apply (SS_map_filter _ (is_c c)) in S1. rewrite filter_comm in S1. rewrite (J c) in S1.
   rewrite filter_app, map_app in S1. apply SS_app_l in S1.
   unfold got. rewrite filter_map_snd, map_map. exact S1.
 Qed.
 
-(* single consumer: what it has received is a prefix of the global push order (critical-section order) *)
-Theorem tq_assignment_is_push_prefix limit thrs s :
+(* items are matched to pops in critical-section order; matched ++ queued ++ held-by-blocked is, producer by producer, in
+   push order (nothing overtakes); what a consumer has received plus what is in flight for it is exactly its share of the
+   matching, in order (single consumer: FIFO) *)
+Theorem tq_assignment_in_push_order limit thrs s :
   limit_ok limit -> Forall t_fresh thrs -> t_reachable limit thrs s ->
-  t_plog s = map snd (t_alog s) ++ t_items s ++ map fst (t_blocked s) /\
+  (forall p, StronglySorted lt (map it_k (filter (of_p p) (map snd (t_alog s) ++ t_items s ++ map fst (t_blocked s))))) /\
   forall c, map snd (filter (is_c c) (t_alog s)) = got c s ++ map snd (filter (is_c c) (iitems (t_infl s))).
 Proof.
-  intros L F R. destruct (tcons_reachable _ _ _ L F R) as [_ _ _ J1 _ _]. destruct (tord_reachable _ _ _ F R) as [J _ _ _].
-  split; [exact J1|]. intros c. rewrite (J c), map_app. reflexivity.
+  intros L F R. destruct (tcons_reachable _ _ _ L F R) as [_ _ _ _ _ _ J6]. destruct (tord_reachable _ _ _ F R) as [J _ _ _].
+  split; [intros p; exact (proj1 (J6 p))|]. intros c. rewrite (J c), map_app. reflexivity.
 Qed.
